@@ -23,14 +23,14 @@ impl Quota for CountingQuota {
 }
 
 fn gen_cases(rng: &mut Rng, tier: Tier) -> Vec<Value> {
-    let (n, limit) = if tier == Tier::Thorough { (40, 600) } else { (6, 120) };
+    let (n, limit) = if tier == Tier::Thorough { (60, 1500) } else { (10, 400) };
     (0..n)
         .map(|i| {
             let mut cfg = GenCfg::random(rng);
             cfg.metric = true;
             cfg.jobs = (4, 10);
             let sp = gen_problem(rng, &cfg);
-            { let mg = [1usize, 2, 3, 10][i % 4]; json!({"k": "quota", "sp": sp, "max_gens": mg, "limit": limit}) }
+            { let mg = [1usize, 2, 3, 10, 25][i % 5]; json!({"k": "quota", "sp": sp, "max_gens": mg, "limit": limit}) }
         })
         .collect()
 }
